@@ -2,7 +2,7 @@
 from . import rules_txn  # noqa: F401
 
 _OPTIONAL = ['rules_lock', 'rules_file', 'rules_codec', 'rules_expiry', 'rules_evict', 'rules_queue', 'rules_shard',
-             'rules_retry', 'rules_api', 'rules_memo', 'rules_check', 'rules_persist', 'rules_django', 'rules_recipes']
+             'rules_retry', 'rules_api', 'rules_memo', 'rules_check', 'rules_persist', 'rules_django', 'rules_recipes', 'rules_state']
 import importlib
 for _m in _OPTIONAL:
     try:
@@ -102,14 +102,14 @@ _ALL = {
              'insert/delete of the head share one transaction block (L2), the pulled file is released after commit '
              '(F4), expired heads use the common liveness predicate (X1); Deque/Index delegate positionally right (S6).',
              'Delivery order/exactly-once over interleavings follows from the block discipline only under A2.'),
-    'C11': P(['E6', ('I1', r'^Deque\.'), ('L3', r'Deque\.'), ('R2', r'^Deque\.'), 'R3', ('P1', r'Deque'), ('S6', r'persistent\.Deque\.')],
+    'C11': P(['E6', ('I2', r'^(Deque|no-store)'), ('I1', r'^Deque\.'), ('L3', r'Deque\.'), ('R2', r'^Deque\.'), 'R3', ('P1', r'Deque'), ('S6', r'persistent\.Deque\.')],
              'structural necessary conditions: policy none, append+trim in one retrying block, Timeout containment, state tuple',
              'Does NOT decide equivalence with collections.deque. Decides: a Deque never evicts or expires (E6); '
              'append/appendleft push, measure and trim the opposite side inside one retrying transaction, as does the '
              'maxlen setter (L3); no Deque method lets Timeout escape (R2, R3); the pickled state (directory, maxlen) '
              'matches the constructor (P1); delegation passes arguments in the right positions (S6).',
              'Equivalence with collections.deque over operation sequences needs execution and is not decided.'),
-    'C12': P(['E6', ('I1', r'^Index\.'), ('L3', r'Index\.'), ('R2', r'^Index\.'), 'R3', ('P1', r'Index'), 'V1b',
+    'C12': P(['E6', ('I2', r'^(Index|no-store)'), ('I1', r'^Index\.'), ('L3', r'Index\.'), ('R2', r'^Index\.'), 'R3', ('P1', r'Index'), 'V1b',
               ('S6', r'persistent\.Index\.')],
              'structural necessary conditions + call-path check of the lookup (vanished value file)',
              'Does NOT decide equivalence with OrderedDict. Decides: an Index never evicts or expires (E6); popitem '
@@ -117,7 +117,7 @@ _ALL = {
              'method lets Timeout escape (R2, R3); state matches the constructor (P1); the lookup path must not turn a '
              'vanished (replaced) value file into "key absent" (V1b - violated, known finding).',
              'Equivalence with OrderedDict over histories needs execution and is not decided.'),
-    'C13': P(['S1', 'S2', 'S3', 'S4', 'S5', 'S6', 'P3'],
+    'C13': P(['S1', 'S2', 'S3', 'S4', 'S5', 'S6', 'S7', 'P3', ('I2', r'^(FanoutCache|no-store)')],
              'routing dataflow per method + purity allow-list of the hash + aggregate iteration shape',
              'Decides that every key-addressed FanoutCache method calls shards[hash(key) % count] with the key it '
              'hashed (S1); Disk.hash is a pure function of the database form of the key (S2) and respects database '
@@ -142,7 +142,7 @@ _ALL = {
              'identity is pid+tid on both sides and release asserts ownership (O1, O2); context-manager forms and '
              'barrier use acquire/release (O3); add/delete underneath are atomic (L2).',
              'Mutual exclusion over all interleavings follows from these only under A2; it is not model-checked here.'),
-    'C16': P(['M1', 'M2', 'M3', 'M4', ('B2', r'Cache\.get/'), ('S6', r'memoize')],
+    'C16': P(['M1', 'M2', 'M3', 'M4', 'M5', ('B2', r'Cache\.get/'), ('S6', r'memoize')],
              'concatenation-grammar reading of the key builder + wrapper dataflow (same key looked up and stored)',
              'Decides that the key builder separates positional from keyword segments by a delimiter no argument value '
              'can equal (M1 - violated: the delimiter is None, known finding); typed/ignore are applied to every kept '
@@ -157,7 +157,7 @@ _ALL = {
              'a fixpoint in one pass (H3 - violated, known finding); all comparisons run in one transaction (H4); '
              'FanoutCache.check covers every shard (S4, S6).',
              'Convergence for arbitrary damage combinations beyond these structural conditions is not decided.'),
-    'C18': P(['P1', 'P2', 'P3', 'P4', 'P5', 'B5', 'B6', 'L6'],
+    'C18': P(['P1', 'P2', 'P3', 'P4', 'P5', 'B5', 'B6', 'L6', ('I2', r'^(Cache|Disk|JSONDisk|no-store)')],
              'constant folding of the on-disk format against a pinned reference + state-tuple/constructor agreement',
              'Decides that pickled state matches the constructor for Cache/FanoutCache/Deque/Index (P1); settings are '
              'layered defaults < stored < arguments and counters inserted with OR IGNORE (P2); every on-disk format fact '
@@ -165,7 +165,7 @@ _ALL = {
              'released 5.6.3 reference (P3); a tested parameter is used (P4); connections are per thread and re-opened '
              'after fork/close (L6).',
              'Byte-level readability of pickles across Python versions is not decided.'),
-    'C19': P(['D1', 'D2', 'D3', 'D4', ('S6', r'djangocache'), ('R2', r'DjangoCache'), 'R3'],
+    'C19': P(['D1', 'D2', 'D3', 'D4', 'D5', 'D6', ('I2', r'^(DjangoCache|no-store)'), ('S6', r'djangocache'), ('R2', r'DjangoCache'), 'R3'],
              'key/timeout dataflow through the adapter + abstract evaluation of get_backend_timeout on 5 input classes',
              'Does NOT decide the full backend contract over histories. Decides: every key goes downstream as '
              'make_key(key, version=version) (D1); every timeout goes through get_backend_timeout, which maps the '
@@ -190,16 +190,22 @@ _EXTRA = {
     'C05': ' Also: row identity (L9) and re-entrancy of the shared Disk object (K7).',
     'C10': ' Also: pull/peek results are (key, value) of the selected row in the requested shape (B2); the counter of '
            'a prefixed key is never cut out with character-set stripping (Q3).',
+    'C13': ' Also: named sub-containers have one handle per name, created only when the name is absent (S7); no '
+           'class-level mutable containers and no stores on class objects (I2).',
     'C11': ' Also: each method delegates to the right primitive with the right side/sentinel/retry constants and '
            'rotate re-inserts exactly what it popped (I1, L3).',
-    'C12': ' Also: the delegation table and the sentinel-based equality hold (I1, L3).',
+    'C12': ' Also: the delegation table and the sentinel-based equality hold (I1, L3); alternate constructors set the '
+           'instance fields __init__ sets, nothing is stored on the class (I2).',
     'C16': ' Also: decorator factories keep no state between decorated functions (M4); the lookup result shape survives '
-           'the vanished-file path that memoize_stampede unpacks (B2).',
+           'the vanished-file path that memoize_stampede unpacks (B2); the wrapper\'s __cache_key__ is assigned after '
+           'the metadata copy of functools.wraps/update_wrapper (M5).',
     'C17': ' Also: both directory scans run on every path and compare os.path.join-ed paths (H4).',
     'C18': ' Also: setting prefixes are stripped exactly and reset() writes through to the Settings table (B5, B6); '
            'connections are opened in autocommit mode with the object\'s timeout (L6); statements name only '
            'tables and indexes that __init__ creates unconditionally and nothing drops (P5).',
-    'C19': ' Also: every method performs exactly one downstream operation on every return path (D4).',
+    'C19': ' Also: every method performs exactly one downstream operation on every return path (D4); the memoize key '
+           'hook stays user-level and the wrapper goes through the adapter methods (D5); the constructor does not '
+           'mutate the configuration mapping shared by all backend instances (D6); no class-level mutable state (I2).',
 }
 PROPS = {}
 for _pid, _spec in _ALL.items():
